@@ -45,6 +45,13 @@ def enabled(done, params):
     """next steps given the set/sequence of steps done so far"""
     if 'X' in done:
         return [s for s in ('T',) if s not in done]
+    if params.get('reconnect'):
+        # the first control connection is lost while the ownership request is unanswered; Tor prints the listener line again
+        # (e.g. after a HUP), the client connects a second time and bootstrap completes over that connection
+        chain = ['O', 'C', 'B1', 'D', 'O', 'C', 'B1', 'B2', 'B3', 'P100']
+        pos = sum(1 for s in done if s not in ('T', 'X', 'E'))
+        out = [chain[pos]] if pos < len(chain) else []
+        return out + [s for s in ('T', 'X') if s not in done]
     out = []
     if 'O' not in done and params['ostyle'] != 'absent':
         out.append('O')
@@ -147,6 +154,8 @@ def run_launch(params, order):
                             cut = MARKER_LINE.index(b'Opening') + k
                             pp.outReceived(MARKER_LINE[:cut])
                             pp.outReceived(MARKER_LINE[cut:])
+                    elif step == 'D':
+                        sim.wire.lose(failure.Failure(error.ConnectionLost()))
                     elif step == 'L':
                         # Tor's own log on stdout says so too - but the launch result depends on the control connection only
                         pp.outReceived(b'Oct 03 12:00:01.000 [notice] Bootstrapped 100% (done): Done\n')
@@ -283,6 +292,7 @@ def param_sets(tier):
     out.append(dict(base, own='reject'))
     out.append(dict(base, own='reject-reset'))
     out.append(dict(base, stdout100=True))
+    out.append(dict(base, reconnect=True))
     out.append(dict(base, exit='signal', datadir='user'))
     out.append(dict(base, exit='code0', kill_on_stderr=True))
     out.append(dict(base, connect='refused'))
